@@ -50,40 +50,41 @@ type Clause struct {
 }
 
 type Contract struct {
-	Key       string
-	Callback  bool
-	Params    []string
-	Results   []string
-	Requires  []*Clause
-	Ensures   []*Clause
-	Panics    []*Clause
-	Covers    []*Clause
-	Modifies  []string
-	HasMod    bool
-	LoopInv   map[int][]*Clause
-	LoopDec   map[int]*Clause
-	LoopMod   map[int][]string
-	Trusted   string
-	Pure      bool
-	Dep       bool // from a dependency spec file
-	File      string
-	Line      int
-	Ghosts    []string // ghost statements: "name = expr" executed at exit (unused for now)
-	Uses      []string // callback contracts: caller variables visible to the contract
-	Interf    []string // locations other goroutines may change while the call blocks (lock acquisition)
-	Sites     map[string][]*SiteAnn
-	Assumed   []string             // free-text assumptions made by this contract (listed in evidence)
-	NoNilFn   bool                 // function values called in the body are assumed non-nil (recorded in Assumed)
-	ReturnSets []*SiteAnn          // ghost assignments at the normal exit
-	FrameOnly []string             // with NoFrame: structs whose fields are nevertheless frame-checked
-	FrameTags []string
-	NoFrame   bool                 // the modifies clause is used at call sites but not checked against the body
-	ChecksPub bool                 // element writes are checked against the publication typestate (functions that fill the shared caches)
-	NoSafety  bool                 // the zero-annotation no-panic sweep is not run for this function (recorded in Assumed)
-	Captures  *Clause              // closures: the only variables the function literal may capture (Src = comma-separated names)
-	StoreAnns map[string][]*Clause // "after-store <global> assert e": checked right after the package variable is assigned
-	Immutable []string             // parameters (receivers) whose fields the body must not write (C15)
-	Given     []GhostDecl          // scenario contracts (key "func@name"): universally quantified scenario variables
+	Key        string
+	Callback   bool
+	Params     []string
+	Results    []string
+	Requires   []*Clause
+	Ensures    []*Clause
+	Panics     []*Clause
+	Covers     []*Clause
+	Modifies   []string
+	HasMod     bool
+	LoopInv    map[int][]*Clause
+	LoopDec    map[int]*Clause
+	LoopMod    map[int][]string
+	Trusted    string
+	Pure       bool
+	Dep        bool // from a dependency spec file
+	File       string
+	Line       int
+	Ghosts     []string // ghost statements: "name = expr" executed at exit (unused for now)
+	Uses       []string // callback contracts: caller variables visible to the contract
+	Interf     []string // locations other goroutines may change while the call blocks (lock acquisition)
+	Sites      map[string][]*SiteAnn
+	Assumed    []string   // free-text assumptions made by this contract (listed in evidence)
+	NoNilFn    bool       // function values called in the body are assumed non-nil (recorded in Assumed)
+	ReturnSets []*SiteAnn // ghost assignments at the normal exit
+	FrameOnly  []string   // with NoFrame: structs whose fields are nevertheless frame-checked
+	FrameTags  []string
+	NoFrame    bool                 // the modifies clause is used at call sites but not checked against the body
+	ChecksPub  bool                 // element writes are checked against the publication typestate (functions that fill the shared caches)
+	NoSafety   bool                 // the zero-annotation no-panic sweep is not run for this function (recorded in Assumed)
+	Globals    *Clause              // global frame: the only package-level variables of the package the body (and its literals) may mention (Src = comma-separated names)
+	Captures   *Clause              // closures: the only variables the function literal may capture (Src = comma-separated names)
+	StoreAnns  map[string][]*Clause // "after-store <global> assert e": checked right after the package variable is assigned
+	Immutable  []string             // parameters (receivers) whose fields the body must not write (C15)
+	Given      []GhostDecl          // scenario contracts (key "func@name"): universally quantified scenario variables
 }
 
 // SiteAnn is an annotation attached to the k-th call (source order) whose callee expression reads Text.
@@ -376,6 +377,11 @@ func (ss *SpecSet) parseFile(path string, dep bool) error {
 			case "captures":
 				tags, body := parseTags(rest)
 				cur.Captures = &Clause{Kind: "captures", Tags: tags, Src: body, Line: ln + 1, File: path}
+			case "globals":
+				// globals [tags] a, b | nothing: the package-level variables of the package under verification that the
+				// function's own body and its function literals may mention at all (read, write or address)
+				tags, body := parseTags(rest)
+				cur.Globals = &Clause{Kind: "globals", Tags: tags, Src: body, Line: ln + 1, File: path}
 			case "on-return":
 				// on-return set <ghost> = <expr>: ghost assignment at the function's normal exit, before its postconditions
 				// are checked (the expression may use now(local)); skipped on exits where the expression is not defined
@@ -611,6 +617,9 @@ func (c *Contract) hasTag(tag string) bool {
 		}
 	}
 	if c.Captures != nil && clauseHasTag(c.Captures, tag) {
+		return true
+	}
+	if c.Globals != nil && clauseHasTag(c.Globals, tag) {
 		return true
 	}
 	if len(c.FrameOnly) > 0 && contains(c.FrameTags, tag) {
